@@ -25,33 +25,51 @@ def main():
     out = arg("--out")
     replays = arg("--replays", "/verif/harness/replays")
     replay = arg("--replay")
+    sub = arg("--sub")
     env = dict(os.environ, CARGO_NET_OFFLINE="true", CARGO_TERM_COLOR="never")
-    b = subprocess.run(["cargo", "+nightly", "fuzz", "build", "-s", "none", target], cwd=FZ, env=env, stdout=subprocess.PIPE, stderr=subprocess.STDOUT, text=True)
+    if sub:
+        # the `oracle` target: which semantic oracle runs is chosen through the environment
+        env.update(VERIF_FUZZ_SUB=sub, VERIF_SEED=str(seed), VERIF_FUZZ_SHARD=str(shard), VERIF_FUZZ_REPLAYS=replays,
+                   VERIF_KNOWN=os.path.join(os.path.dirname(os.path.dirname(os.path.abspath(__file__))), "known_findings.txt"))
+    if sub:
+        # Built by hand with cargo-fuzz's instrumentation flags but WITHOUT `--cfg fuzzing`: under that cfg
+        # proc-macro2 switches span locations off, and most oracles here are about spans.
+        flags = ("-Cpasses=sancov-module -Cllvm-args=-sanitizer-coverage-level=4 -Cllvm-args=-sanitizer-coverage-inline-8bit-counters "
+                 "-Cllvm-args=-sanitizer-coverage-pc-table -Cllvm-args=-sanitizer-coverage-trace-compares "
+                 "-Cllvm-args=-simplifycfg-branch-fold-threshold=0 -Ccodegen-units=1 -Cdebug-assertions")
+        tdir = os.path.join(FZ, "target-oracle")
+        b = subprocess.run(["cargo", "+nightly", "build", "--release", "--bin", target, "--target", "x86_64-unknown-linux-gnu", "--target-dir", tdir],
+                           cwd=os.path.join(FZ, "fuzz"), env=dict(env, RUSTFLAGS=flags), stdout=subprocess.PIPE, stderr=subprocess.STDOUT, text=True)
+        runner = [os.path.join(tdir, "x86_64-unknown-linux-gnu", "release", target)]
+    else:
+        b = subprocess.run(["cargo", "+nightly", "fuzz", "build", "-s", "none", target], cwd=FZ, env=env, stdout=subprocess.PIPE, stderr=subprocess.STDOUT, text=True)
+        runner = ["cargo", "+nightly", "fuzz", "run", "-s", "none", target]
     if b.returncode != 0:
         print(b.stdout[-4000:], file=sys.stderr)
         sys.exit(2)
-    step = "fuzz-" + target
+    step = "fuzz-" + (sub or target)
+    label = "%s-%s" % (target, sub) if sub else target
     if replay:
         art = json.load(open(replay))["case"]["artifact"] if replay.endswith(".json") else replay
-        r = subprocess.run(["cargo", "+nightly", "fuzz", "run", "-s", "none", target, art], cwd=FZ, env=env, stdout=subprocess.PIPE, stderr=subprocess.STDOUT, text=True)
+        r = subprocess.run(runner + [art], cwd=FZ, env=env, stdout=subprocess.PIPE, stderr=subprocess.STDOUT, text=True)
         crashed = r.returncode != 0
         frag = {"property": prop, "step": step, "seed": seed, "evaluations": 1, "distinct_nontrivial": 0, "rule": "replay of one saved input", "classes": {}, "samples": [],
                 "violations": ([{"sig": "fuzz:" + target, "msg": r.stdout[-1500:], "replay": replay}] if crashed else []), "known_hits": {}, "excluded_known": 0, "exhaustive": None, "notes": []}
         os.makedirs(out, exist_ok=True)
         json.dump(frag, open(os.path.join(out, "%s.%s.json" % (prop, step)), "w"))
         sys.exit(1 if crashed else 0)
-    corpus = os.path.join(FZ, "fuzz", "corpus-run", "%s-%d" % (target, shard))
+    corpus = os.path.join(FZ, "fuzz", "corpus-run", "%s-%d" % (label, shard))
     shutil.rmtree(corpus, ignore_errors=True)
     os.makedirs(corpus)
     # both starts: shard 0 from an empty corpus, the others from the seed files
     if shard != 0:
-        for f in glob.glob(os.path.join(FZ, "fuzz", "seeds", target, "*")):
+        for f in glob.glob(os.path.join(FZ, "fuzz", "seeds", sub or target, "*")):
             shutil.copy(f, corpus)
-    artdir = os.path.join(FZ, "fuzz", "artifacts-run", "%s-%d" % (target, shard)) + "/"
+    artdir = os.path.join(FZ, "fuzz", "artifacts-run", "%s-%d" % (label, shard)) + "/"
     shutil.rmtree(artdir, ignore_errors=True)
     os.makedirs(artdir)
     t0 = time.time()
-    r = subprocess.run(["cargo", "+nightly", "fuzz", "run", "-s", "none", target, corpus, "--", "-runs=%d" % runs, "-seed=%d" % (seed * 100 + shard + 1),
+    r = subprocess.run(runner + [corpus] + ([] if sub else ["--"]) + ["-runs=%d" % runs, "-seed=%d" % (seed * 100 + shard + 1),
                         "-max_len=600", "-len_control=0", "-artifact_prefix=" + artdir, "-print_final_stats=1"],
                        cwd=FZ, env=env, stdout=subprocess.PIPE, stderr=subprocess.STDOUT, text=True)
     log = r.stdout
@@ -63,8 +81,10 @@ def main():
     if r.returncode != 0 or arts:
         os.makedirs(replays, exist_ok=True)
         panic = re.search(r"panicked at [^\n]*\n([^\n]*)", log)
-        msg = (panic.group(0) if panic else log[-1200:])
+        fv = re.search(r"FUZZ-VIOLATION sig=(\S+) :: ([^\n]*)", log)
+        msg = (fv.group(0) if fv else panic.group(0) if panic else log[-1200:])
         keep = None
+        jr = re.search(r"FUZZ-REPLAY (\S+)", log)
         if arts:
             keep = os.path.join(replays, "%s-%s-s%d-%d.bin" % (prop, step, seed, shard))
             shutil.copy(arts[0], keep)
@@ -74,6 +94,9 @@ def main():
         if not arts and n == 0:
             print(log[-3000:], file=sys.stderr)
             sys.exit(2)
+        if jr and os.path.exists(jr.group(1)):
+            # the oracle saved the failing case in the format of the proptest step: `./check <id> --replay` runs it without libFuzzer
+            path = jr.group(1)
         violations.append({"sig": "fuzz:%s:%s" % (target, re.sub(r"[0-9]+", "#", msg)[:80]), "msg": msg[:1500], "replay": path})
     files = sorted(glob.glob(os.path.join(corpus, "*")))
     hashes = [int.from_bytes(hashlib.sha256(open(f, "rb").read()).digest()[:8], "little") for f in files]
